@@ -47,6 +47,7 @@ type kase struct {
 	CUE  string `json:"cue"`
 	TOML bool   `json:"toml_safe"`
 	Want string `json:"want,omitempty"` // status: ok | fail
+	Only string `json:"only,omitempty"` // value: restrict the loop to these encodings (layout family)
 }
 
 var cueBin = "/verif/.work/bin/cue"
@@ -89,6 +90,32 @@ func values(thorough bool) []kase {
 	}
 	for _, c := range containers {
 		add(c, true)
+	}
+	// layout family: two sibling keys, one a textual prefix of the other (or
+	// containing a dot or a space), each holding a scalar, a table, an array of
+	// tables, nested ones or an empty container - at the top level and inside
+	// a parent table. TOML headers ([t], [[t]], [t.u]) are where siblings can
+	// be confused.
+	shapes := []gen.Data{one, tbl, gen.DList(tbl, gen.DStruct("a", gen.DInt("2"))),
+		gen.DList(gen.DStruct("a", gen.DStruct("b", one)), gen.DStruct("c", gen.DList(gen.DStruct("d", one)))),
+		gen.DStruct("l", gen.DList(tbl), "x", one), gen.DStruct()}
+	keyPairs := [][2]string{{"foo", "foobar"}, {"foobar", "foo"}, {"foo", "foo.bar"}, {"a b", "a"}}
+	only := "toml"
+	if thorough {
+		keyPairs = append(keyPairs, [2]string{"foo.bar", "foo"}, [2]string{"t", "t2"}, [2]string{"é", "éa"}, [2]string{"foo", "foo-bar"})
+		only = "toml,yaml"
+	}
+	for _, kp := range keyPairs {
+		for _, s1 := range shapes {
+			for _, s2 := range shapes {
+				d := gen.DStruct(kp[0], s1, kp[1], s2)
+				out = append(out, kase{Kind: "value", CUE: d.CUE(), TOML: true, Only: only})
+				out = append(out, kase{Kind: "value", CUE: gen.DStruct("p", d, "z", one).CUE(), TOML: true, Only: only})
+				if thorough {
+					out = append(out, kase{Kind: "value", CUE: gen.DStruct("l", gen.DList(d, d)).CUE(), TOML: true, Only: only})
+				}
+			}
+		}
 	}
 	if thorough {
 		small := []gen.Data{one, s, gen.DFloat("1.5"), {Kind: "bool", B: true}, gen.DStr("a\nb"), gen.DStr("")}
@@ -362,6 +389,9 @@ func checkValue(r *core.Run, c kase) {
 	if c.TOML {
 		encs = append(encs, "toml")
 	}
+	if c.Only != "" {
+		encs = strings.Split(c.Only, ",")
+	}
 	for _, enc := range encs {
 		ext := map[string]string{"json": "json", "yaml": "yaml", "cue": "cue", "toml": "toml"}[enc]
 		e := runCue(dir, "", "export", "x.cue", "--out", enc)
@@ -462,6 +492,12 @@ func checkValue(r *core.Run, c kase) {
 			r.Violation(key("export of "+enc+" from stdin differs", c), c, fmt.Sprintf("want %s\ngot  %s\n%s", want, ts, stdin.errOut))
 			continue
 		}
+	}
+	if c.Only != "" {
+		r.Outcome("loop:ok")
+		r.State(c.CUE)
+		r.Nontrivial()
+		return
 	}
 	// package directory argument and -e path
 	if strings.HasPrefix(c.CUE, "{") {
